@@ -402,3 +402,23 @@ def loop_keeps_all(B, skip_tests):
     if p is not None:
         return False, "an element can be skipped along lines %s" % B.path_lines(p)
     return True, "every element is pushed (accepted skips: %s)" % ", ".join("%s()==%s" % x for x in skip_tests)
+
+
+def reliable_round_trip(F, R, rule, fid, what):
+    """an actor wrapper `async fn x(&self, ..) -> Result<T>`: the request is enqueued with `mpsc::Sender::send(..).await` (waits for a
+    slot, never drops) and the reply is awaited on the oneshot receiver; no lossy variant (try_send, send_timeout, try_recv, blocking)"""
+    fn = F.body_of(fid) if hasattr(F, "body_of") else F.fns.get(fid)
+    if fn is None:
+        R.fail(rule, "%s:anchor-missing:%s" % (rule, fid), "-", "anchor-missing=%s" % fid)
+        return
+    B = mir.Body(fn, F)
+    R.touched(fn["id"])
+    sends = B.calls_named("mpsc::Sender::send")
+    lossy = sorted({q.base_name(c[2] or c[1]).rsplit("::", 1)[-1] for c in B.calls
+                    if q.ends(c[2] or c[1] or "", "try_send", "send_timeout", "try_reserve", "try_reserve_owned", "blocking_send", "try_recv", "blocking_recv")})
+    awaited = len(sends) == 1 and q.immediate_await(B, sends[0][0]) is not None
+    polls = [c for c in B.calls if c[1] == mir.POLL and "oneshot::Receiver" in str((c[3]["f"].get("fnargs") or [{}])[0].get("ty", ""))]
+    R.check(awaited and not lossy and len(polls) == 1, rule, "%s:%s:reliable-round-trip" % (rule, fn["id"]), "%s:%s" % (fn["file"], fn["line"]),
+            "%s: enqueued with mpsc::Sender::send(..).await and the reply awaited (a busy actor delays the caller, it never fails it)" % what,
+            "%s uses %s (awaited send: %s, awaited reply: %d): when the actor's queue is full the call fails instead of waiting"
+            % (what, lossy or "an unexpected shape", awaited, len(polls)))
